@@ -13,7 +13,13 @@ base environment, so every tag / event names the task (cfg nenvs = number of tas
 learner is wrapped so that every chained call leaves an `inner_call` (start, budget, eplimit) and an
 `inner_ret` (start, n = count the learner reports, executed = steps the environment really executed so
 far) event; LoopTrace ignores them (frame clauses only) - see the report for what a trace spec should
-check on them.
+check on them.  `add` events of the MultiTaskReplayBuffer are filed under env = the task the buffer has
+selected (src_env = the task the base environment is set to), so a transition kept in another task's
+buffer shows up as StoredNotProduced / StoreObs.  smt / active_mt end with a `training_steps` event
+(per_task as returned, per_env_executed as counted from the step events); `ret` = sum(training_steps).
+
+Cost: every chained call re-creates its jitted functions inside the learner (train_sac / train_ddpg build
+`train_step` with a fresh functools.partial), so a scheduler run is dominated by 10-20 re-compilations.
 """
 from __future__ import annotations
 
@@ -212,7 +218,8 @@ def _recording_mt_buffer(rec, base, cap):
 
         def add_sample(self, *a, **sample):
             out = super().add_sample(*a, **sample)
-            rec.emit("add", env=int(base.env_id), task=int(self.selected_task), **_sample_fields(sample))
+            # filed under the task the buffer has selected: that is the stream the routine claims the transition belongs to
+            rec.emit("add", env=int(self.selected_task), src_env=int(base.env_id), **_sample_fields(sample))
             return out
 
         def sample_batch(self, *a, **k):
@@ -256,6 +263,14 @@ def _ddpg_parts(rec, env, sc):
     for k, v in mods.items():
         rec.watch_module(k, v)
     return mods, dict(policy=policy, policy_optimizer=popt, q=q, q_optimizer=qopt, policy_target=ptgt, q_target=qtgt)
+
+
+def _per_env_steps(rec):
+    out = [0] * N_TASKS
+    for e in rec.events:
+        if e["ev"] == "step":
+            out[e["env"]] += 1
+    return out
 
 
 def _sched_cfg(name, sc, **over):
@@ -337,7 +352,7 @@ def run_smt(sc):
     cfg = _sched_cfg("smt", sc, explore_only_in_warmup=False, ulpk=2, trained=["policy", "q"], targets=["policy_target", "q_target"], rules=_ddpg_rules(sc))
     ret = None if res is None else int(np.sum(res[1]))  # training_steps: "number of training steps for each task"
     if res is not None:
-        rec.emit("training_steps", per_task=[int(x) for x in res[1]])
+        rec.emit("training_steps", per_task=[int(x) for x in res[1]], per_env_executed=_per_env_steps(rec))
     return finish(rec, "smt", sc, cfg, returned=ret, final=final_digests(**mods), error=err)
 
 
@@ -360,5 +375,5 @@ def run_active_mt(sc):
     cfg = _sched_cfg("active_mt", sc, explore_only_in_warmup=False, ulpk=2, trained=["policy", "q"], targets=["policy_target", "q_target"], rules=_ddpg_rules(sc))
     ret = None if res is None else int(np.sum(res[1]))
     if res is not None:
-        rec.emit("training_steps", per_task=[int(x) for x in res[1]])
+        rec.emit("training_steps", per_task=[int(x) for x in res[1]], per_env_executed=_per_env_steps(rec))
     return finish(rec, "active_mt", sc, cfg, returned=ret, final=final_digests(**mods), error=err)
